@@ -2228,6 +2228,10 @@ class ItemSpaceImpl(DynamicSpaceImpl):
                     detach(child)
             if space in space._dynbase._dynamic_subs:
                 space._dynbase._dynamic_subs.remove(space)
+            if hasattr(space, "interface"):
+                # The interface may be that of an earlier instance
+                # taken from the cache: it must not denote this one
+                set_null_impl(space)
 
         detach(self)
         name = getattr(self, "name", None)
